@@ -424,6 +424,20 @@ class Ctx:
         for cls, ex in list(self.known_seen.items()):
             if cls not in open_classes:
                 self.violations.append({"case": ex["case"], "impl": ex["impl"], "why": f"class {cls} is not an open known finding: " + ex.get("why", "")})
+        # findings listed BY INPUT (`"by_input": true`): a failing case that is exactly the listed witness is that finding; any other
+        # failing input of the same kind is still reported
+        by_input = [e for e in known if e.get("status", "open") == "open" and e.get("by_input")]
+        listed_inputs = []
+        if by_input and self.violations:
+            canon = lambda c: json.dumps([c.get("op"), c.get("in")], sort_keys=True)
+            keep = []
+            for v in self.violations:
+                hit = [e for e in by_input if isinstance(v.get("case"), dict) and canon(e["witness"]) == canon(v["case"])]
+                if hit:
+                    listed_inputs.append(hit[0])
+                else:
+                    keep.append(v)
+            self.violations = keep
         rdir = os.path.join(VERIF, "evidence", "replay")
         os.makedirs(rdir, exist_ok=True)
         rc = 0
@@ -459,6 +473,8 @@ class Ctx:
             for cls, e in open_classes.items():
                 if cls in self.known_seen:
                     lines.append(f"KNOWN-FINDING: property={self.prop} {e['id']} [{cls}] {e['what']}")
+            for e in listed_inputs:
+                lines.append(f"KNOWN-FINDING: property={self.prop} {e['id']} [listed input] {e['what']}")
         nthm = len(self.theorems)
         good = sum(1 for v in self.theorems.values() if set(v) <= ALLOWED_AXIOMS)
         proof_broken = any(b.kind == "proof" for b in self.breaks)
